@@ -34,6 +34,7 @@
 #include <unordered_set>
 #include <vector>
 #include <sys/mman.h>
+#include <sys/time.h>
 #include <sys/wait.h>
 #include <unistd.h>
 
@@ -352,7 +353,13 @@ static std::vector<Script> all_scripts(const std::vector<int> &alpha, int maxlen
   return out;
 }
 
+// Watchdog: a run that never ends (e.g. cleanup() spinning on a routine that does not leave) burns CPU, so the limit is on the
+// CPU time of one program (robust against a stalled / oversubscribed machine); a long wall-clock alarm is the backstop for a blocked run.
 static void on_alarm(int) { _exit(7); }
+static void arm_watchdog() {
+  struct itimerval it; it.it_interval.tv_sec = 0; it.it_interval.tv_usec = 0; it.it_value.tv_sec = 8; it.it_value.tv_usec = 0;
+  setitimer(ITIMER_PROF, &it, nullptr); alarm(600);
+}
 
 static int enum_main(int argc, char **argv) {
   std::string tag = argv[2]; std::vector<int> alpha;
@@ -367,17 +374,17 @@ static int enum_main(int argc, char **argv) {
   g_info_only = getenv("C18_INFO_ONLY") != nullptr;
   shm = (Shm *)mmap(nullptr, sizeof(Shm), PROT_READ | PROT_WRITE, MAP_SHARED | MAP_ANONYMOUS, -1, 0);
   memset((void *)shm, 0, sizeof *shm);
-  long start = part; int restarts = 0; std::map<std::string, int> crash_sigs;
+  long start = part; int restarts = 0, spurious = 0; std::map<std::string, int> crash_sigs;
   while (start < total) {
     fflush(stdout);
     shm->finished = 0;
     pid_t pid = fork();
     if (pid < 0) { perror("fork"); return 3; }
     if (pid == 0) {
-      signal(SIGALRM, on_alarm);
+      signal(SIGALRM, on_alarm); signal(SIGPROF, on_alarm);
       for (long idx = start; idx < total; idx += nparts) {
         if (now_s() > deadline) { printf("@CAP %s: deadline reached at program %ld of %ld (part %ld/%ld)\n", tag.c_str(), idx, total, part, nparts); shm->capped = 1; break; }
-        shm->cur_prog = idx; alarm(10);
+        shm->cur_prog = idx; arm_watchdog();
         Prog p; p.nr = NR; p.param = param; long x = idx; int tot = 0; for (int r = NR - 1; r >= 0; r--) { p.s[r] = scripts[x % NS]; x /= NS; tot += p.s[r].n; }
         if (tot > maxtotal) continue;
         std::vector<Act> sched; explore(p, sched, maxacts, Inherited()); shm->programs++;
@@ -392,7 +399,19 @@ static int enum_main(int argc, char **argv) {
     if (shm->finished || shm->capped) break;
     // the child hung (watchdog) or died: report the run it was executing, continue after that program
     char how[64];
-    if (WIFEXITED(st) && WEXITSTATUS(st) == 7) snprintf(how, sizeof how, "hang-in-%s", kPhase[shm->phase]);
+    if (WIFEXITED(st) && WEXITSTATUS(st) == 7) {
+      // confirm in a fresh child that exactly this run does not end
+      int phase = shm->phase; fflush(stdout);
+      pid_t c2 = fork();
+      if (c2 == 0) { signal(SIGALRM, on_alarm); signal(SIGPROF, on_alarm); arm_watchdog(); Prog p = shm->prog; std::vector<Act> sc(shm->sched, shm->sched + shm->nsched); run(p, sc, false); _exit(0); }
+      int st2 = 0; waitpid(c2, &st2, 0);
+      if (!(WIFEXITED(st2) && WEXITSTATUS(st2) == 7)) {
+        if (++spurious > 20) { printf("@CAP %s: watchdog fired 20 times on runs that complete when repeated (machine stalled?), part %ld/%ld stopped at program %ld\n", tag.c_str(), part, nparts, (long)shm->cur_prog); break; }
+        printf("@INFO %s part %ld/%ld: watchdog fired in phase %s but the run completes when repeated; program %ld re-enumerated\n", tag.c_str(), part, nparts, kPhase[phase], (long)shm->cur_prog);
+        start = shm->cur_prog; continue;
+      }
+      snprintf(how, sizeof how, "hang-in-%s", kPhase[shm->phase]);
+    }
     else if (WIFSIGNALED(st)) snprintf(how, sizeof how, "crash-signal%d-in-%s", WTERMSIG(st), kPhase[shm->phase]);
     else snprintf(how, sizeof how, "child-exit%d-in-%s", WEXITSTATUS(st), kPhase[shm->phase]);
     if (++crash_sigs[how] <= 3) printf("%s sig=%s :: %s\n", VIOLTAG(), how, run_str(shm->prog, std::vector<Act>(shm->sched, shm->sched + shm->nsched)).c_str());
@@ -419,7 +438,7 @@ static int replay_main(const std::string &t) {
       if (w == "pass") sched.push_back({A_PASS, 0}); else if (w == "cleanup") sched.push_back({A_CLEANUP, 0});
       else if (w.compare(0, 8, "resume(r") == 0) sched.push_back({A_RESUME, (uint8_t)atoi(w.c_str() + 8)}); else if (w.compare(0, 8, "cancel(r") == 0) sched.push_back({A_CANCEL, (uint8_t)atoi(w.c_str() + 8)}); } }
   shm = (Shm *)mmap(nullptr, sizeof(Shm), PROT_READ | PROT_WRITE, MAP_SHARED | MAP_ANONYMOUS, -1, 0);
-  alarm(20);
+  signal(SIGALRM, on_alarm); signal(SIGPROF, on_alarm); arm_watchdog();
   RunOut o = run(p, sched, true);
   printf("run: %s\ntrace: %s\nidle state: %s\n", run_str(p, sched).c_str(), o.trace.c_str(), o.outcome.c_str());
   for (auto &v : o.viols) printf("violation: %s:main=%s\n", v.first.c_str(), v.second.c_str());
